@@ -81,7 +81,7 @@ inline bool read_problem(Tok& t, Problem& p) {
     t.expect("BLK");
     Block bl;
     bl.dim = t.num(); bl.band = t.num(); bl.det = t.num();
-    bl.C.resize(bl.dim * bl.dim); bl.W.resize(bl.dim * bl.dim);
+    bl.C.resize(bl.dim * bl.dim); bl.W.resize(bl.det == 0 ? 0 : bl.dim * bl.dim);
     for (auto& v : bl.C) v = t.dbl();
     for (auto& v : bl.W) v = t.dbl();
     p.blocks.push_back(bl);
